@@ -227,10 +227,15 @@ Proof.
     { apply (table_ok_wf n m rinv T2); [|assumption]. intros p [Hp _]. exact Hp. }
     destruct (start_decomp k Hk1) as (_ & _ & Hsw).
     rewrite (blimb_loop_eq amm n powers e (start_limb k) (start_window k) (start_mask k) Htw Hl He (start_mask_ok k Hk1) Hsw).
+    assert (Hpes : Forall (pe_ok m rinv T2) [(powers, e)]).
+    { constructor; [split; [exact Htab | exact He] | constructor]. }
+    assert (Hne1 : [(powers, e)] <> [] \/ forall z, G0 z -> G3 z) by (left; discriminate).
+    assert (HG1 : G3 one).
+    { destruct Hone as (Ho1 & Ho2 & Ho3). split; [split; assumption | lia]. }
+    assert (HGG : forall z, G3 z -> G0 z) by (intros z H; exact (proj1 H)).
+    assert (HTT : forall p, T2 p -> wf p /\ length p = n) by (intros p H; exact (proj1 H)).
     pose proof (multi_exp_internal_spec n m rinv Hm amm (fun z => amm z z) G0 G3 T2
-                  (fun z H => proj1 H) (fun p H => proj1 H) G3_mul G0_sq k Hk1
-                  [(powers, e)] ltac:(constructor; [split; assumption | constructor]) (or_introl ltac:(discriminate))
-                  one ltac:(destruct Hone as (? & ? & ?); split; [split; assumption | lia]) Vone) as [[Hz Hz3] Vz].
+                  HGG HTT G3_mul G0_sq k Hk1 [(powers, e)] Hpes Hne1 one HG1 Vone) as [[Hz Hz3] Vz].
     unfold multi_exp_internal in *.
     set (z := limb_loop amm (fun z => amm z z) [(powers, e)] (start_limb k) (start_window k) (start_mask k) (S (start_limb k)) one) in *.
     cbn [Pw] in Vz. unfold vbase, ebits in Vz. cbn [fst snd] in Vz. rewrite H1, Z.div_1_r, Z.mul_1_r in Vz.
